@@ -318,6 +318,8 @@ def norm_index(E, i, n, node, what="index"):
         eff = i_
     elif conc(i) and i < 0:
         eff = i_ + n_
+    elif getattr(E, "nofork", 0) and not E.feasible(i_ < 0):
+        eff = i_                      # side evaluation at a position known to be non-negative: no wrap-around term
     else:
         eff = z3.If(i_ < 0, i_ + n_, i_)
     E.safety("index", z3.And(eff >= 0, eff < n_), node, "IndexError")
@@ -835,6 +837,8 @@ def iterspec(R, E, v, node):
         if not (conc(v.step) and v.step == 1):
             raise Unsupported("symbolic range step")
         n = z3.simplify(z3.If(z(v.stop) - z(v.start) >= 0, z(v.stop) - z(v.start), 0))
+        if z3.is_app_of(n, z3.Z3_OP_ITE) and not E.feasible(z(v.stop) - z(v.start) < 0):
+            n = z3.simplify(z(v.stop) - z(v.start))          # known non-empty-or-zero range: no clamp term
         start = v.start
         sp = IterSpec(length=n, item=lambda k: z3.simplify(z(start) + z(k)))
         sp.is_range = True
@@ -910,6 +914,7 @@ def filtered_comprehension(R, E, spec, gen, sub, elt, node):
     k = z3.Int(fresh_name("fk"))
     body = E.side_eval(z3.And(k >= 0, k < z(spec.length)), lambda: cond_at(k))     # the filter is only evaluated at positions of the sequence
     mask = NdArr((spec.length,), Cell(z3.Lambda([k], body), 1, name="filter"), kind="bool")
+    mask.canonical_key = True
     fm, n, K, rank, unrank = R.mask_info(E, mask)
 
     def g(t):
